@@ -36,7 +36,9 @@ def retry_cases(seed=0):
         for max_retries in (0, 1, 3):
             for refusals in range(0, max_retries + 4):
                 for mult in (0.25, 0.5):
-                    opts = tdgl.SolverOptions(solve_time=1, adaptive=adaptive, max_solve_retries=max_retries, adaptive_time_step_multiplier=mult, dt_init=1e-3, dt_max=1e-1)
+                    # adaptive with dt_init == dt_max is still adaptive: refused steps are retried with a reduced step
+                    dt_hi = 1e-1 if (refusals + max_retries) % 2 == 0 else 1e-3
+                    opts = tdgl.SolverOptions(solve_time=1, adaptive=adaptive, max_solve_retries=max_retries, adaptive_time_step_multiplier=mult, dt_init=1e-3, dt_max=dt_hi)
                     s = TDGLSolver(dev, opts)
                     calls = []
 
@@ -49,7 +51,7 @@ def retry_cases(seed=0):
                     dt_in = 0.05
                     psi = s.psi_init
                     n += 1
-                    case = dict(adaptive=adaptive, max_solve_retries=max_retries, refusals=refusals, multiplier=mult, dt_in=dt_in)
+                    case = dict(adaptive=adaptive, max_solve_retries=max_retries, refusals=refusals, multiplier=mult, dt_in=dt_in, dt_init=1e-3, dt_max=dt_hi)
                     try:
                         out = s.adaptive_euler_step(3, psi, np.abs(psi) ** 2, s.mu_init, s.epsilon, dt_in)
                     except RuntimeError:
